@@ -41,7 +41,96 @@ pub fn class_of<T>(o: &Outcome<T>) -> String {
     }
 }
 
+/// LZMA2 chunk-limit stratum: p pairwise-distinct bytes, then > 2 MiB of zeros (maximal matches): the first
+/// chunk ends within MATCH_LEN_MAX of the 2 MiB limit, at an offset that depends on p
+fn run_chunk_limit(rep: &mut Report, rng: &mut Rng, thorough: bool, sweep: bool) {
+    let ps: Vec<usize> = if sweep || thorough { (0..273).collect() } else { (0..3).map(|_| rng.range(0, 272) as usize).collect() };
+    for p in ps {
+        let mut data: Vec<u8> = (0..p).map(|k| (k as u8).wrapping_mul(37).wrapping_add(11) | 1).collect();
+        // pairwise distinct is not required, only "no matches": a permutation-like ramp
+        for (k, b) in data.iter_mut().enumerate() {
+            *b = (k as u8).wrapping_add(1);
+        }
+        data.extend(std::iter::repeat(0u8).take((3 << 20) + 17));
+        let mut o = LzOpts { dict: 1 << 16, lc: 3, lp: 0, pb: 2, normal: false, nice: 273, bt4: false, depth: 4, preset: None };
+        if rng.chance(1, 2) {
+            o.dict = 1 << 20;
+        }
+        let detail = || json!({"format": "lzma2", "stratum": "chunk-limit", "prefix_len": p, "zeros": (3 << 20) + 17, "opts": o.json()});
+        rep.count("stratum.chunk-limit");
+        match lzma2_compress(&data, &o, None, &[data.len()], 0) {
+            Outcome::Ok(c) => {
+                match lzma2_decompress(&c, o.dict, None, &[1 << 16], data.len() + 16) {
+                    Outcome::Ok((out, used)) if out == data && used == c.len() => {}
+                    Outcome::Ok(_) => rep.fail("lzma2-roundtrip-mismatch", "LZMA2 round trip returned different bytes (chunk-limit stratum)", detail()),
+                    other => rep.fail(&format!("lzma2-roundtrip-{}", other.class()), &format!("LZMA2 own reader fails on own output: {}", other.describe()), detail()),
+                }
+                // every chunk header must describe at most 2 MiB / 64 KiB
+                let mut pos = 0usize;
+                while pos < c.len() && c[pos] != 0 {
+                    let ctl = c[pos];
+                    if ctl >= 0x80 {
+                        let unc = (((ctl & 0x1F) as usize) << 16) + ((c[pos + 1] as usize) << 8) + c[pos + 2] as usize + 1;
+                        let comp = ((c[pos + 3] as usize) << 8) + c[pos + 4] as usize + 1;
+                        if unc > (2 << 20) {
+                            rep.fail("lzma2-chunk-too-large", "chunk header declares more than 2 MiB", detail());
+                        }
+                        pos += 5 + if ctl >= 0xC0 { 1 } else { 0 } + comp;
+                    } else {
+                        pos += 3 + ((c[pos + 1] as usize) << 8) + c[pos + 2] as usize + 1;
+                    }
+                }
+                if pos + 1 != c.len() {
+                    rep.fail("lzma2-chunk-walk", "chunk headers do not tile the stream", detail());
+                }
+            }
+            other => rep.fail(&format!("lzma2-write-{}", other.class()), &other.describe(), detail()),
+        }
+        rep.case(format!("lzma2:chunk-limit:{}", p / 32), true, || detail());
+    }
+}
+
+/// LZMA2 with a chunk_size well above 256 KiB and a small dictionary: the encoder window slides INSIDE a later
+/// independent chunk; incompressible regions force stored chunks there
+fn run_big_chunks(rep: &mut Report, rng: &mut Rng, thorough: bool, sweep: bool) {
+    for k in 0..(if thorough || sweep { 12 } else { 2 }) {
+        let mut r = rng.fork();
+        let dict = *r.pick(&[4096u32, 20480, 4096, 65535]);
+        let chunk = r.range(280_000, 520_000);
+        let total = chunk as usize * 2 + r.range(100_000, 400_000) as usize;
+        let mut data = vec![];
+        while data.len() < total {
+            let kind = *r.pick(&["random", "text", "random", "mixed"]);
+            let l = r.range(20_000, 200_000) as usize;
+            data.extend(gen_data(&mut r, kind, l));
+        }
+        data.truncate(total);
+        let mut o = gen_lzopts(&mut r, true, 1 << 16, false);
+        o.dict = dict;
+        o.preset = None;
+        o.nice = o.nice.min(64);
+        o.depth = o.depth.clamp(0, 16);
+        let (pstyle, parts) = gen_partition(&mut r, data.len());
+        let detail = || json!({"format": "lzma2", "stratum": "big-chunks", "chunk_size": chunk, "opts": o.json(), "data_len": data.len(), "partition": pstyle, "data_fnv": fnv(&data), "case": k});
+        rep.count("stratum.big-chunks");
+        match lzma2_compress(&data, &o, Some(chunk), &parts, 0) {
+            Outcome::Ok(c) => match lzma2_decompress(&c, o.dict, None, &[1 << 16], data.len() + 16) {
+                Outcome::Ok((out, used)) if out == data && used == c.len() => {}
+                Outcome::Ok(_) => rep.fail("lzma2-roundtrip-mismatch", "LZMA2 round trip returned different bytes (big-chunks stratum)", detail()),
+                other => rep.fail(&format!("lzma2-roundtrip-{}", other.class()), &format!("LZMA2 own reader fails on own output: {}", other.describe()), detail()),
+            },
+            other => rep.fail(&format!("lzma2-write-{}", other.class()), &format!("LZMA2 writer failed on in-range options: {}", other.describe()), detail()),
+        }
+        rep.case(format!("lzma2:big-chunks:d{}:{}", dict_class(dict), pstyle), true, || detail());
+    }
+}
+
 pub fn run(rep: &mut Report, rng: &mut Rng, thorough: bool) {
+    // a search run (the check re-invokes the engine with seeds >= 1000 when a proof obligation or the
+    // correspondence broke) sweeps the targeted strata completely
+    let sweep = std::env::args().nth(3).and_then(|s| s.parse::<u64>().ok()).map(|s| s >= 1000).unwrap_or(false);
+    run_chunk_limit(rep, rng, thorough, sweep);
+    run_big_chunks(rep, rng, thorough, sweep);
     let cases = if thorough { 3000 } else { 260 };
     let max = if thorough { 2 << 20 } else { 96 << 10 };
     // model decode is slower than the real one: cap what is sent to the model
